@@ -145,7 +145,7 @@ def _worker(task: Dict[str, Any]) -> Dict[str, Any]:
         name = task["grammar"]
         grammar = GRAMMARS[name]
         pool = H.tree_pool(name, task["n_enum"], task["n_random"], task["seed"])
-        t0 = time.time()
+        t0 = time.process_time()
         formula, oracle_formula, features, solver, solver_error, parse_error = _prepare(
             grammar, task["text"], task["raw"], task["oracle_text"], task["watchdog"])
         cases = []
@@ -158,7 +158,7 @@ def _worker(task: Dict[str, Any]) -> Dict[str, Any]:
         cover1 = H.cover_snapshot()
         return dict(task=task, parse_error=parse_error, cases=cases, features=features,
                     cover={k: cover1.get(k, 0) - cover0.get(k, 0) for k in cover1},
-                    wall=round(time.time() - t0, 2), crash=None)
+                    wall=round(time.process_time() - t0, 2), crash=None)
     except KeyboardInterrupt:
         raise
     except BaseException:  # noqa: BLE001
